@@ -116,6 +116,12 @@ class BackwardRun:
         k = scn["k"] if chunk == "scn" else chunk
         self.k = k
         tens = [B.node(t) for t in self.tensors]
+        # presentation of `tensors`: "rows = the scalars of `tensors`, flattened, in the order given", so a
+        # tensor may equally be passed as the list of its scalars (many small tensors: this is also what
+        # makes Python's set iteration order differ from the list order, which needs >= 5 elements)
+        self.exploded = sum(t.numel() for t in tens) >= 4 and rng.random() < 0.5
+        if self.exploded:
+            tens = [t.reshape(-1)[i] for t in tens for i in range(t.numel())]
         tens_arg = tens[0] if (len(tens) == 1 and rng.random() < 0.3) else tens
         self.exc = None
         try:
@@ -127,7 +133,8 @@ class BackwardRun:
         self.after_vals = B.flat_vals()
         self.after_grads = {l: B.grad_flat(l) for l in self.leaves}
         self.meta = {"shapes": [list(s) for s in B.shapes], "inputs_as": self.how, "order": order,
-                     "retain": self.retain, "dtype": str(dtype).replace("torch.", ""), "k": k}
+                     "retain": self.retain, "dtype": str(dtype).replace("torch.", ""), "k": k,
+                     "tensors_exploded": self.exploded}
 
     # -------------------------------------------------------------- property-layer comparisons
     def check_deposits(self) -> list[str]:
